@@ -95,7 +95,7 @@ func (v DenseReal64Vector) SLICE(i, j int) DenseReal64Vector {
   if j > len(v) {
     panic("slice bounds out of range")
   }
-  return v[i:j]
+  return v[i:j:j]
 }
 func (v DenseReal64Vector) APPEND(w DenseReal64Vector) DenseReal64Vector {
   return append(v, w...)
@@ -233,7 +233,7 @@ func (v DenseReal64Vector) MagicSlice(i, j int) MagicVector {
   if j > len(v) {
     panic("slice bounds out of range")
   }
-  return v[i:j]
+  return v[i:j:j]
 }
 func (v DenseReal64Vector) ResetDerivatives() {
   for i := 0; i < len(v); i++ {
